@@ -4,6 +4,8 @@ namespace sim {
 
 using ace_time::clock::SystemClockLoop;
 
+static const int kMaxIdleCallsPastDeadline = 6;
+
 static RefPlan::Kind parseKind(const std::string& s) {
   if (s == "ABS") return RefPlan::ABS;
   if (s == "SAME") return RefPlan::SAME;
@@ -294,7 +296,11 @@ void ClockDevice::doLoop(int opIndex, Verdict& v, Coverage& cov) {
       // counted only once simulated time has moved past the deadline: several loop() calls may fall into the very
       // millisecond of the deadline, and an implementation whose comparisons are strict makes no progress in them
       sync.overdue++;
-      if (sync.overdue > 2) {
+      // "within a bounded time": the shipped machine needs one idle call between noticing the deadline and sending;
+      // a machine with a couple more intermediate states (or a strict time-out comparison on top) still keeps the
+      // property, so the bound is generous. Defects that delay a request by seconds exceed it in any densely
+      // polled run.
+      if (sync.overdue > kMaxIdleCallsPastDeadline) {
         v.fail("c14-liveness", fmt("t=%lld ms: the latest admissible time for the next request was "
             "%lld ms; %d loop() calls since then sent nothing", (long long)now,
             (long long)sync.dueMax, sync.overdue), opIndex);
